@@ -60,6 +60,19 @@ func vPickNoKW() vAlg {
 	return vSymAlgs[idx[zzverif.Choose("alg", len(idx))]]
 }
 
+// vXorMask returns b XOR an arbitrary mask that is not all zero (any value of the same size other than b)
+func vXorMask(name string, b []byte) []byte {
+	mask := zzverif.Bytes(name, len(b))
+	out := make([]byte, len(b))
+	nz := false
+	for i := range b {
+		nz = zzverif.Or(nz, mask[i] != 0)
+		out[i] = b[i] ^ mask[i]
+	}
+	zzverif.Assume(nz)
+	return out
+}
+
 func vMsgLen(a vAlg) int {
 	if a.kw {
 		return 8 * (1 + zzverif.Choose("blocks", 2))
@@ -94,22 +107,21 @@ func VerifSymRoundTrip() {
 		// tamper with one component: an arbitrary different value of the same size
 		what := zzverif.Choose("tamper", 4)
 		ct2, tag2, nonce2, aad2 := ct, tag, nonce, aad
+		// (an arbitrary non-zero XOR mask over the authentic value: the native replay applies the same mask to the
+		// values the real primitives produce; the authentic ciphertext slice itself - which shares its array with the
+		// tag - is passed whenever the ciphertext is not the tampered component)
 		switch what {
 		case 0:
-			ct2 = zzverif.Bytes("ct2", len(ct))
-			zzverif.Assume(!zzverif.EqBytes(ct2, ct))
+			ct2 = vXorMask("ct_mask", ct)
 		case 1:
-			tag2 = zzverif.Bytes("tag2", len(tag))
-			zzverif.Assume(!zzverif.EqBytes(tag2, tag))
+			tag2 = vXorMask("tag_mask", tag)
 		case 2:
-			nonce2 = zzverif.Bytes("nonce2", len(nonce))
-			zzverif.Assume(!zzverif.EqBytes(nonce2, nonce))
+			nonce2 = vXorMask("nonce_mask", nonce)
 		case 3:
 			if len(aad) == 0 {
 				aad2 = zzverif.Bytes("aad2", 2)
 			} else {
-				aad2 = zzverif.Bytes("aad2", len(aad))
-				zzverif.Assume(!zzverif.EqBytes(aad2, aad))
+				aad2 = vXorMask("aad_mask", aad)
 			}
 		}
 		// ideal primitives: the MAC / AEAD is collision free (different inputs give different tags)
